@@ -144,7 +144,8 @@ ASSUME Mode = "gen" =>
 (***************************************************************************)
 (* Judge.  Observation of a case: got[j] = 1 iff cppcheck accepted args[j]  *)
 (* (unit binding: isIntArgValid / isFloatArgValid returned true; end to end:*)
-(* no invalidFunctionArg at the line of the call).                          *)
+(* no invalidFunctionArg at the line of the call).  The same case occurs    *)
+(* once per binding ("unit", "e2e-lit", "e2e-var" in field binding).        *)
 (*     accepted  <=>  In(x, expr)          unless Open                      *)
 (***************************************************************************)
 JCases == TLCEval(IF Mode = "judge" THEN ndJsonDeserialize(IOEnv.CASES) ELSE <<>>)
@@ -174,7 +175,7 @@ BadPairs == {p \in JPairs \ OpenPairs : (JObs[p[1]].got[p[2]] = 1) # In(JArg(p).
 \* arguments at a bound of the expression or one tenth beside it: the cases that separate <= from <, : from ,
 BoundaryPairs == {p \in JPairs : \E b \in BoundsOf(JItems(p)) : Abs(JArg(p).v - b) <= 1}
 BadRec(p) == LET c == JCases[p[1]] IN
-  [id |-> c.id, valid |-> c.valid, arg |-> JArg(p).text, form |-> JArg(p).form, pos |-> c.pos,
+  [id |-> c.id, binding |-> c.binding, valid |-> c.valid, arg |-> JArg(p).text, form |-> JArg(p).form, pos |-> c.pos,
    expected |-> IF In(JArg(p).v, c.items) THEN "accepted" ELSE "invalidFunctionArg",
    observed |-> IF JObs[p[1]].got[p[2]] = 1 THEN "accepted" ELSE IF JObs[p[1]].got[p[2]] = 0 THEN "invalidFunctionArg" ELSE "no answer",
    shape |-> Shape(c.items, JArg(p))]
@@ -186,7 +187,8 @@ ASSUME Mode = "judge" =>
   /\ ndJsonSerialize(IOEnv.OUT, BadSeq)
   /\ PrintT(<<"JUDGED", Cardinality(JPairs), "OPEN", Cardinality(OpenPairs),
               "INVALID", Cardinality({p \in JPairs : ~In(JArg(p).v, JItems(p))}),
-              "BOUNDARY", Cardinality(BoundaryPairs), "BAD", Len(BadSeq)>>)
+              "BOUNDARY", Cardinality(BoundaryPairs),
+              "UBOUNDARY", Cardinality({p \in BoundaryPairs : JCases[p[1]].binding = "unit"}), "BAD", Len(BadSeq)>>)
 
 (***************************************************************************)
 (* not-null / not-bool.  An argument kind is a piece of source text with    *)
